@@ -10,7 +10,7 @@ LEVEL_NOTE = ("Trusted base: vsim (own interpreter for the emitted VHDL subset, 
 
 CLAIMS = {
  'C02': dict(technique="runtime monitoring: emitted VHDL executed by an instrumented interpreter (vsim) for all operand valuations, compared online with an independent value model (MV)",
-             text="Exploration: every documented operator x operand-type pair (small widths exhaustively over all values, both concurrent and clocked placement) plus random depth-2/3 trees; the oracle observes every output after every valuation.",
+             text="Exploration: every documented operator x operand-type pair (small widths exhaustively over all values, both concurrent and clocked placement, typed constant operands on either side) plus random depth-2/3 trees; the oracle observes every output after every valuation.",
              ref="2 C02"),
  'C01': dict(technique="runtime monitoring: emitted state machine executed by vsim against the same coroutine run by CPython with explicit clock yields; per-clock comparison of all ports over a joint-state exploration",
              text="Exploration: seeded coroutine programs (await/while/break/continue/return/sub-coroutines, marker statements), every input valuation in every reached joint state up to a budget plus random runs.",
@@ -52,7 +52,7 @@ CLAIMS = {
              text="Exploration: all source/target formats left -2..3 (thorough -3..4), right -3..2 (-4..3), width <=4 (<=6) x 4 style combinations x all raw values for resize; all format pairs x all value pairs for + - *; constructions and equality; sampled configurations in emitted logic.",
              ref="2 C19"),
  'C12': dict(technique="runtime monitoring: one generated description rendered as an instantiation tree and as inlined logic, both executed by vsim under identical input sequences with an online output comparator; parsed text checked against the generator's port and wiring tables",
-             text="Exploration: random trees depth <=3, repeated templates, whole/slice/element/view actuals, instances inside contexts, shuffled keyword order; 68 (thorough 208) clocks per design; entity interface, template count, emission order and every port map compared with the declared tables.",
+             text="Exploration: random trees depth <=3, repeated templates, whole/slice/element/view actuals, instances inside contexts, derived entity classes, inout associations, shuffled keyword order; 68 (thorough 208) clocks per design; entity interface, template count, emission order and every port map compared with the declared tables.",
              ref="2 C12"),
  'C20': dict(technique="runtime monitoring: compiled register maps executed by vsim under a hostile AXI4-Lite master BFM; online per-clock protocol automata on the five channels, exactly-once accounting, prefix-consistency oracle against a register-map reference model for read data and hardware-visible storage, notification counting, exact read-back at quiescence",
              text="Exploration: random layouts (MemWord, Word, Register fields/flags/notifications, Array, nested RegFile, Memory x 4 mask modes x inline, Input/Output; gaps, non power-of-two and unaligned ranges) x master profiles (blocking, pipelined, AW-first, W-first, slow readies, random) with per-clock random valid/ready timing, partial strobes, unmapped addresses, reads racing writes.",
